@@ -65,6 +65,7 @@ class Program:
     def __init__(s, root, events, evt_base=None, name=None):
         s.root = root; s.events = list(events); s.evt_base = evt_base or {}
         s.name = name or root.name
+        s.flags = []
         s.machines = []      # DFS order; root first
         s.all_states = []    # global index -> St or Machine (machine-as-state)
         s._index(root, ())
@@ -104,11 +105,12 @@ class Ctx:
     def __init__(s, prog, dec):
         s.prog = prog; s.dec = dec; s.log = []; s.consulted = []
 
-    def guard(s, site):
+    def guard(s, site, cls='G'):
         if site not in s.dec: raise NeedGuard(site)
         v = s.dec[site]
         s.consulted.append(site)
-        s.log.append(('G', site, v))
+        if getattr(s, 'sem', None) is not None and s.sem.probe: s.sem.emit_probe()
+        s.log.append((cls, site, v))
         return v
 
 
@@ -157,32 +159,93 @@ class Conf:
 
 
 class Sem:
-    """reference step semantics"""
-    def __init__(s, prog, conf, ctx, pay='P'):
-        s.prog = prog; s.c = conf; s.ctx = ctx; s.pay = pay
+    """reference step semantics (what the properties state)"""
+    def __init__(s, prog, conf, ctx, pay='P', probe=None):
+        s.prog = prog; s.c = conf; s.ctx = ctx; s.pay = pay; s.probe = probe
+        s.comp = []          # pending completion checks: (machine, region, state name)
+        ctx.sem = s
 
     # ---- logging helpers
-    def L(s, kind, idx, pay): s.ctx.log.append((kind, idx, pay))
+    def L(s, kind, idx, pay):
+        s.ctx.log.append((kind, idx, pay))
+        s.emit_probe()
+
+    def emit_probe(s):
+        if not s.probe: return
+        if s.probe == 'flags':
+            fl = s.prog.flags
+            om = sum(1 << k for k, f in enumerate(fl) if s.flag_or(f))
+            am = sum(1 << k for k, f in enumerate(fl) if s.flag_and(f))
+            s.ctx.log.append(('F', 0, om | (am << 8)))
+        elif s.probe == 'ids':
+            for m in s.c.active_machines():
+                for r, name in enumerate(s.c.m[m.name]['active']):
+                    s.ctx.log.append(('F', 100 + 8 * m.idx + r, m.states[name].idx))
+
+    # ---- flags
+    def flag_or(s, f):
+        for m in s.c.active_machines():
+            if m is not s.prog.root and f in m.flags: return True
+            for name in s.c.m[m.name]['active']:
+                if f in m.states[name].flags: return True
+        return False
+
+    def flag_and(s, f):
+        m = s.prog.root
+        for name in s.c.m[m.name]['active']:
+            st = m.states[name]
+            fl = st.sub.flags if st.kind == 'sub' else st.flags
+            if f not in fl: return False
+        return True
+
+    # ---- blocking (terminate / interrupt states of the root machine)
+    def blocked(s, ev):
+        m = s.prog.root
+        act = [m.states[n] for n in s.c.m[m.name]['active']]
+        if any(st.kind == 'term' for st in act): return True
+        intr = [st for st in act if st.kind == 'intr']
+        if intr:
+            if ev is not None and any(ev in st.end_events for st in intr): return False
+            return True
+        return False
+
+    # ---- deferral
+    def is_deferred(s, ev):
+        for m in s.c.active_machines():
+            if m is not s.prog.root and ev in m.deferred: return True
+            for name in s.c.m[m.name]['active']:
+                if ev in m.states[name].deferred: return True
+        return False
 
     # ---- entry / exit cascades
-    def enter_machine(s, m, pay, explicit=None, evt=None):
+    def use_history(s, m, evt):
         cm = s.c.m[m.name]
-        s.L('E', m.self_idx, pay)
-        use_hist = False
-        if cm['hist'] is not None:
-            if m.history == 'always': use_hist = True
-            elif isinstance(m.history, tuple) and evt in m.history[1]: use_hist = True
+        if cm['hist'] is None: return False
+        if m.history == 'always': return True
+        if isinstance(m.history, tuple) and evt in m.history[1]: return True
+        return False
+
+    def enter_machine(s, m, pay, explicit=None, evt=None, own_pay=None):
+        cm = s.c.m[m.name]
+        use_hist = s.use_history(m, evt)
         for r, reg in enumerate(m.regions):
             if explicit and r in explicit: cm['active'][r] = explicit[r]
             elif use_hist: cm['active'][r] = cm['hist'][r]
             else: cm['active'][r] = reg[0]
+        s.L('E', m.self_idx, pay if own_pay is None else own_pay)
         for r in range(len(m.regions)):
-            s.enter_state(m, cm['active'][r], pay, evt)
+            s.enter_state(m, r, cm['active'][r], pay, evt)
 
-    def enter_state(s, m, name, pay, evt=None, explicit=None):
+    def enter_state(s, m, r, name, pay, evt=None):
         st = m.states[name]
-        if st.kind == 'sub': s.enter_machine(st.sub, pay, explicit, evt)
-        else: s.L('E', st.idx, pay)
+        if st.kind == 'sub': s.enter_machine(st.sub, pay, None, evt)
+        else:
+            s.L('E', st.idx, pay)
+            if st.kind == 'exit':
+                # exit point: the connected outer transition is taken with the forwarded event in the same top-level call
+                s.c.queue.append((st.exit_event, pay))
+            if any(row.evt is None and row.src == name for row in m.rows):
+                s.comp.append((m, r, name))
 
     def exit_machine(s, m, pay):
         cm = s.c.m[m.name]
@@ -200,7 +263,10 @@ class Sem:
     def start(s):
         if s.c.started: return
         s.c.started = True
+        s.pay = '-1'
         s.enter_machine(s.prog.root, '-1', None, None)
+        s.run_completions()
+        s.drain()
 
     def stop(s):
         if not s.c.started: return
@@ -208,10 +274,64 @@ class Sem:
         s.exit_machine(s.prog.root, '-1')
 
     # ---- event dispatch
-    def process_event(s, ev):
-        """top-level process_event on a quiescent machine; returns (result bits)"""
-        res = s.process_in_machine(s.prog.root, ev, True)
+    def process_event(s, ev, pay='P'):
+        """top-level process_event on a quiescent machine; returns result bits or None (not specified)"""
+        if s.blocked(ev): return None
+        if s.is_deferred(ev):
+            s.c.deferred.append((ev, pay)); return H_DEFERRED
+        res = s.run_one(ev, pay)
+        s.drain()
         return res
+
+    def run_one(s, ev, pay):
+        s.pay = pay
+        res = s.process_in_machine(s.prog.root, ev, True)
+        s.run_completions()
+        if res & H_TRUE: s.release_deferred()
+        return res
+
+    def drain(s):
+        n = 0
+        while s.c.queue:
+            n += 1
+            if n > 12: raise RuntimeError('queue does not drain')
+            ev, pay = s.c.queue.pop(0)
+            if s.blocked(ev): continue
+            if s.is_deferred(ev): s.c.deferred.append((ev, pay)); continue
+            s.run_one(ev, pay)
+
+    def release_deferred(s):
+        """deferred events whose type is no longer deferred are re-offered, in arrival order, before anything else"""
+        n = 0
+        progress = True
+        while progress:
+            progress = False
+            for k, (ev, pay) in enumerate(s.c.deferred):
+                if s.blocked(ev): break
+                if not s.is_deferred(ev):
+                    del s.c.deferred[k]
+                    n += 1
+                    if n > 12: raise RuntimeError('deferred queue does not drain')
+                    s.pay = pay
+                    r = s.process_in_machine(s.prog.root, ev, True)
+                    s.run_completions()
+                    progress = True
+                    break
+
+    def run_completions(s):
+        n = 0
+        while s.comp:
+            m, r, name = s.comp.pop(0)
+            if m not in s.c.active_machines() or s.c.m[m.name]['active'][r] != name: continue
+            if s.blocked(None): continue
+            n += 1
+            if n > 12: raise RuntimeError('completion chain does not end')
+            s.pay = '-1'
+            cands = [x for x in reversed(m.rows) if x.src == name and x.evt is None]
+            for row in cands:
+                if row.guard is not None and not s.ctx.guard(row.guard, 'Q'): continue
+                s.take(m, r, row, None)
+                break
 
     def process_in_machine(s, m, ev, toplevel):
         cm = s.c.m[m.name]
@@ -225,6 +345,15 @@ class Sem:
                 s.ctx.log.append(('N', m.idx, cm['active'][r], s.pay))
         return res
 
+    def row_source_active(s, m, name, row):
+        """row is a candidate for active state `name`"""
+        if row.src == name: return True
+        if isinstance(row.src, tuple) and row.src[0] == 'exit' and row.src[1] == name:
+            sub = m.states[name].sub
+            pt = row.src[2]
+            return s.c.m[sub.name]['active'][sub.region_of(pt)] == pt
+        return False
+
     def dispatch_region(s, m, r, ev):
         cm = s.c.m[m.name]
         name = cm['active'][r]
@@ -237,7 +366,7 @@ class Sem:
             cands = []
         else:
             cands = [x for x in reversed(st.internal)]
-        cands += [x for x in reversed(m.rows) if x.src == name]
+        cands += [x for x in reversed(m.rows) if s.row_source_active(m, name, x)]
         return res | s.try_rows(m, r, cands, ev)
 
     def try_rows(s, m, r, cands, ev):
@@ -251,20 +380,35 @@ class Sem:
 
     def take(s, m, r, row, ev):
         cm = s.c.m[m.name]
+        if row.act == 'defer':
+            s.c.deferred.append((ev, s.pay)); return H_DEFERRED
         if row.tgt is None:          # internal
             s.action(row); return H_TRUE
-        src = row.src
-        s.exit_state(m, src, s.pay)
-        s.action(row)
+        pol = m.policy or 'after_entry'
+        src = cm['active'][r]
         tgt = row.tgt
+        tname = tgt[1] if isinstance(tgt, tuple) else tgt
+        if pol == 'before_transition': cm['active'][r] = tname
+        # exit uses the source state (ids of the region may already name the target)
+        s.exit_state(m, src, s.pay)
+        if pol == 'after_exit': cm['active'][r] = tname
+        s.action(row)
+        if pol == 'after_transition_action': cm['active'][r] = tname
         if isinstance(tgt, tuple) and tgt[0] == 'direct':
             sub = m.states[tgt[1]].sub
             explicit = {sub.region_of(n): n for n in tgt[2]}
-            s.enter_machine(sub, s.pay, explicit, ev)
-            cm['active'][r] = tgt[1]
+            s.enter_machine(sub, s.pay, explicit, ev, own_pay=ANY)
+            cm['active'][r] = tname
+        elif isinstance(tgt, tuple) and tgt[0] == 'entry':
+            sub = m.states[tgt[1]].sub
+            explicit = {sub.region_of(tgt[2]): tgt[2]}
+            s.enter_machine(sub, s.pay, explicit, ev, own_pay=ANY)
+            cm['active'][r] = tname
+            # second part of the compound transition: the inner transition triggered by the same event
+            s.process_in_machine(sub, ev, False)
         else:
-            s.enter_state(m, tgt, s.pay, ev)
-            cm['active'][r] = tgt
+            s.enter_state(m, r, tgt, s.pay, ev)
+            cm['active'][r] = tname
         return H_TRUE
 
     def action(s, row):
@@ -274,7 +418,10 @@ class Sem:
         else: raise NotImplementedError(a)
 
 
-def explore(prog, conf, stepfn):
+ANY = '*any*'     # log argument that is not specified by the property (not compared)
+
+
+def explore(prog, conf, stepfn, probe=None):
     """enumerate all guard-valuation paths of one step from conf.
     stepfn(sem) -> result.  returns list of (decisions, log, result, postconf)"""
     paths = []
@@ -283,7 +430,7 @@ def explore(prog, conf, stepfn):
         dec = stack.pop()
         c = conf.clone(); ctx = Ctx(prog, dec)
         try:
-            res = stepfn(Sem(prog, c, ctx))
+            res = stepfn(Sem(prog, c, ctx, probe=probe))
             paths.append((dec, ctx.log, res, c))
         except NeedGuard as n:
             for v in (1, 0):
@@ -330,7 +477,7 @@ def bfs(prog, steps, max_depth=6, max_confs=200):
 def run_step(sem, st):
     if st[0] == 'ev':
         if not sem.c.started: return None
-        return sem.process_event(st[1])
+        return sem.process_event(st[1], st[2] if len(st) > 2 else 'P')
     if st[0] == 'start': sem.start(); return None
     if st[0] == 'stop': sem.stop(); return None
     raise ValueError(st)
